@@ -81,15 +81,22 @@ def new_client(server):
 
 
 def profrs_files(root):
-    """The on-disk cache: every regular file under the data directory, wherever and however the library names it,
-    except temporary files (names ending in .tmp / starting with tmp), which are not the cache."""
+    """The on-disk cache as a set of documents: every regular file under the data directory - wherever and however the
+    library names it - that looks like a complete OFX document (has an <OFX> root and ends with </OFX>).  Keyed by content
+    hash: how many files hold a document, what they are called, and what else the library keeps next to them (temporary
+    files, markers, indexes, leftovers of an interrupted write) is its own business; that such a leftover is never *used* is
+    what the behavioural checks (date asked, profile returned, follow-up request) establish."""
+    import hashlib
+
     out = {}
     root = Path(root)
     if not root.exists():
         return out
     for p in sorted(root.rglob("*")):
-        if p.is_file() and not p.name.endswith(".tmp") and not p.name.startswith("tmp"):
-            out[str(p.relative_to(root))] = p.read_bytes()
+        if p.is_file():
+            data = p.read_bytes()
+            if b"<OFX>" in data and data.rstrip().endswith(b"</OFX>"):
+                out[hashlib.sha1(data).hexdigest()[:12]] = data
     return out
 
 
@@ -807,7 +814,7 @@ def restart_failures(si, years, runs):
             out.append(("valid-reply-failed/after-a-real-restart", f"run for year {y}: {r['raised']}"))
         elif r.get("result") != r.get("newest"):
             out.append(("wrong-profile-returned/after-a-real-restart", f"run for year {y}"))
-        if len(r.get("files", {})) != 1 or r.get("newest") not in r["files"].values():
+        if r.get("newest") not in r.get("files", {}).values():
             out.append(("cache-not-one-complete-newest-profile/after-a-real-restart", f"run for year {y}: files {sorted(r.get('files', {}))}"))
         held = y if held is None or y > held else held
     return out
